@@ -1,14 +1,341 @@
 import Model.Util
 /-
-  Model/HpMut.lean — (stub) executable model; see DESIGN.md.  Core Lean only.
+  Model/HpMut.lean — executable model of reinforcement-learning hyperparameter mutation:
+
+  * `RLParameter.mutate`            (agilerl/algorithms/core/registry.py)      → `mutate1`
+  * `HyperparameterConfig.sample`   (same file; the `randperm` draw is explicit) → `sample`
+  * `Mutations.rl_hyperparam_mutation` + `reinit_opt` (agilerl/hpo/mutation.py) → `Pop.mutate`
+  * the sharing structure of `HyperparameterConfig` objects: `create_population` hands ONE object
+    to every member, `clone()` deep-copies the registry (and the value cached on every
+    `RLParameter`) → `Pop.heap`, `Agent.cfg`, `Pop.clone`, `Pop.select`.
+
+  Two switches record the history of the code:
+    `Sem.own`    (repaired)   base of the mutation = the individual's current attribute
+    `Sem.cached` (unrepaired) base = `RLParameter.value`, initialised from the individual only
+                              while it is `None`                                   (defect D2)
+    `allOpts = true`  (repaired)   every optimizer whose lr attribute is the mutated one is rebuilt
+    `allOpts = false` (unrepaired) only the first such optimizer is rebuilt          (defect D19)
+
+  Core Lean only.  Numbers are exact rationals; attribute names are `Nat` ids: the k-th configured
+  hyperparameter has id k, other attributes (e.g. a learning rate that is not configured) have
+  ids ≥ the number of configured hyperparameters.
 -/
+namespace HpMut
+
+inductive DType where
+  | float
+  | int
+deriving Repr, DecidableEq
+
+/-- one `RLParameter` without its cache -/
+structure Param where
+  lo     : Rat
+  hi     : Rat
+  shrink : Rat
+  grow   : Rat
+  dtype  : DType
+deriving Repr, DecidableEq
+
+/-- Python `int(x)`: truncation toward zero -/
+def trunc (q : Rat) : Int := if 0 ≤ q then q.floor else -((-q).floor)
+
+/-- `self.dtype(new_value)` -/
+def cast : DType → Rat → Rat
+  | .float, q => q
+  | .int, q => ((trunc q : Int) : Rat)
+
+/-- Python `max(x, lo)`: `x` unless `lo > x` -/
+def pyMax (x lo : Rat) : Rat := if lo > x then lo else x
+/-- Python `min(y, hi)`: `y` unless `hi < y` -/
+def pyMin (y hi : Rat) : Rat := if hi < y then hi else y
+
+/-- `min(max(new_value, self.min), self.max)` -/
+def clip (lo hi x : Rat) : Rat := pyMin (pyMax x lo) hi
+
+/-- the factor chosen by the draw `torch.rand(1).item()`: `< 0.5` shrinks, otherwise grows -/
+def factor (p : Param) (coin : Rat) : Rat := if coin < 1/2 then p.shrink else p.grow
+
+/-- `RLParameter.mutate` with `self.value = v`, exactly as coded: branch on the coin, strict
+    comparisons against the bound, then clip, then cast -/
+def mutate1 (p : Param) (v coin : Rat) : Rat :=
+  let nv :=
+    if coin < 1/2 then
+      (if v * p.shrink > p.lo then v * p.shrink else p.lo)
+    else
+      (if v * p.grow < p.hi then v * p.grow else p.hi)
+  cast p.dtype (clip p.lo p.hi nv)
+
+/-- the interval the result can lie in: `[min, max]` for floats, `[int(min), int(max)]` for ints -/
+def rangeLo (p : Param) : Rat := cast p.dtype p.lo
+def rangeHi (p : Param) : Rat := cast p.dtype p.hi
+
+/-- `HyperparameterConfig.sample`: `key = torch.randperm(len(config))[0]`; the permutation is an
+    explicit input.  `none` = the draw is not a permutation prefix of a non-empty configuration. -/
+def sample (n : Nat) (perm : List Nat) : Option Nat :=
+  match perm with
+  | k :: _ => if k < n then some k else none
+  | [] => none
+
+/-! ### population -/
+
+/-- one `OptimizerWrapper`: the attribute name of its learning rate and the `lr` of every
+    parameter group of every torch optimizer it holds -/
+structure Opt where
+  lr     : Nat
+  groups : List Rat
+deriving Repr, DecidableEq
+
+/-- a `HyperparameterConfig` object: parameters + the value cached on each `RLParameter` -/
+structure Config where
+  params : List Param
+  cache  : List (Option Rat)
+deriving Repr, DecidableEq
+
+structure Agent where
+  attrs : List Rat        -- numeric attributes by name id
+  cfg   : Nat             -- address of `agent.registry.hp_config` in the heap
+  opts  : List Opt        -- `agent.registry.optimizers`, in order
+deriving Repr, DecidableEq
+
+structure Pop where
+  heap   : List Config
+  agents : List Agent
+deriving Repr, DecidableEq
+
+inductive Sem where
+  | own
+  | cached
+deriving Repr, DecidableEq
+
+def Opt.setLr (o : Opt) (nv : Rat) : Opt := { o with groups := o.groups.map (fun _ => nv) }
+
+/-- repaired: rebuild every optimizer whose lr attribute is `k` -/
+def updAll (k : Nat) (nv : Rat) (os : List Opt) : List Opt :=
+  os.map (fun o => if o.lr = k then o.setLr nv else o)
+
+/-- unrepaired (D19): `[c for c in optimizers if c.lr == attr][0]` only -/
+def updFirst (k : Nat) (nv : Rat) : List Opt → List Opt
+  | [] => []
+  | o :: r => if o.lr = k then o.setLr nv :: r else o :: updFirst k nv r
+
+def updOpts (allOpts : Bool) (k : Nat) (nv : Rat) (os : List Opt) : List Opt :=
+  if allOpts then updAll k nv os else updFirst k nv os
+
+/-- `Mutations.rl_hyperparam_mutation(individual = agents[i])` after `sample` returned the k-th
+    hyperparameter and `torch.rand` returned `coin`.  Invalid indices leave the state unchanged
+    (the line protocol answers `bad-op` for them, the theorems assume validity). -/
+def Pop.mutate (sem : Sem) (allOpts : Bool) (P : Pop) (i k : Nat) (coin : Rat) : Pop :=
+  match P.agents[i]? with
+  | none => P
+  | some a =>
+    match P.heap[a.cfg]? with
+    | none => P
+    | some c =>
+      match c.params[k]?, a.attrs[k]? with
+      | some p, some own =>
+        let base : Rat :=
+          match sem with
+          | .own => own
+          | .cached => (c.cache.getD k none).getD own     -- `if value is None: value = getattr(...)`
+        let nv := mutate1 p base coin
+        let c' : Config := { c with cache := c.cache.set k (some nv) }
+        let a' : Agent := { a with attrs := a.attrs.set k nv, opts := updOpts allOpts k nv a.opts }
+        { heap := P.heap.set a.cfg c', agents := P.agents.set i a' }
+      | _, _ => P
+
+/-- `agents[i].clone()` appended to the population: attributes and optimizer learning rates are
+    copied, the registry (configuration + cached values) is deep-copied into a fresh object -/
+def Pop.clone (P : Pop) (i : Nat) : Pop :=
+  match P.agents[i]? with
+  | none => P
+  | some a =>
+    match P.heap[a.cfg]? with
+    | none => P
+    | some c => { heap := P.heap ++ [c], agents := P.agents ++ [{ a with cfg := P.heap.length }] }
+
+/-- tournament selection: the new population consists of clones of the chosen parents -/
+def Pop.select (P : Pop) (idxs : List Nat) : Pop :=
+  let Q := idxs.foldl Pop.clone P
+  { Q with agents := Q.agents.drop P.agents.length }
+
+inductive Op where
+  | mutate (i k : Nat) (coin : Rat)
+  | clone (i : Nat)
+  | select (idxs : List Nat)
+deriving Repr, DecidableEq
+
+def Pop.apply (sem : Sem) (allOpts : Bool) (P : Pop) : Op → Pop
+  | .mutate i k coin => P.mutate sem allOpts i k coin
+  | .clone i => P.clone i
+  | .select idxs => P.select idxs
+
+def Pop.run (sem : Sem) (allOpts : Bool) (P : Pop) (ops : List Op) : Pop :=
+  ops.foldl (Pop.apply sem allOpts) P
+
+/-- `create_population(..., hp_config=cfg, population_size=n)`: `n` identical agents that all
+    refer to the one configuration object (address 0) -/
+def Pop.initial (params : List Param) (n : Nat) (attrs : List Rat) (opts : List Opt) : Pop :=
+  { heap := [{ params := params, cache := params.map (fun _ => none) }],
+    agents := List.replicate n { attrs := attrs, cfg := 0, opts := opts } }
+
+/-! ### specification: no configuration objects, no cache -/
+
+/-- what can be observed of an agent: its attributes and its optimizers' learning rates -/
+structure SAgent where
+  attrs : List Rat
+  opts  : List Opt
+deriving Repr, DecidableEq
+
+def Agent.obs (a : Agent) : SAgent := { attrs := a.attrs, opts := a.opts }
+def Pop.obs (P : Pop) : List SAgent := P.agents.map Agent.obs
+
+/-- the property as a program: hyperparameter `k` of agent `i` becomes its OWN current value times
+    the factor, clipped and cast; every optimizer on that learning rate follows; nothing else moves -/
+def Spec.mutate (ps : List Param) (A : List SAgent) (i k : Nat) (coin : Rat) : List SAgent :=
+  match A[i]? with
+  | none => A
+  | some a =>
+    match ps[k]?, a.attrs[k]? with
+    | some p, some own =>
+      let nv := mutate1 p own coin
+      A.set i { attrs := a.attrs.set k nv, opts := updAll k nv a.opts }
+    | _, _ => A
+
+def Spec.clone (A : List SAgent) (i : Nat) : List SAgent :=
+  match A[i]? with
+  | none => A
+  | some a => A ++ [a]
+
+def Spec.select (A : List SAgent) (idxs : List Nat) : List SAgent :=
+  (idxs.foldl Spec.clone A).drop A.length
+
+def Spec.apply (ps : List Param) (A : List SAgent) : Op → List SAgent
+  | .mutate i k coin => Spec.mutate ps A i k coin
+  | .clone i => Spec.clone A i
+  | .select idxs => Spec.select A idxs
+
+def Spec.run (ps : List Param) (A : List SAgent) (ops : List Op) : List SAgent :=
+  ops.foldl (Spec.apply ps) A
+
+end HpMut
+
+/-! ### line protocol -/
 namespace HpMut
 open Util
 
 structure IOState where
-  dummy : Nat := 0
+  params  : List Param := []
+  opts    : List (Nat × Nat) := []       -- (lr name id, number of parameter groups)
+  sem     : Sem := Sem.own
+  allOpts : Bool := true
+  pop     : Pop := { heap := [], agents := [] }
+
+def parseDType? : String → Option DType
+  | "f" => some .float
+  | "i" => some .int
+  | _ => none
+
+def showDType : DType → String
+  | .float => "f"
+  | .int => "i"
+
+def parseParam? : List String → Option Param
+  | [lo, hi, s, g, d] =>
+    match parseRat? lo, parseRat? hi, parseRat? s, parseRat? g, parseDType? d with
+    | some lo, some hi, some s, some g, some d => some { lo := lo, hi := hi, shrink := s, grow := g, dtype := d }
+    | _, _, _, _, _ => none
+  | _ => none
+
+def parsePair? : List String → Option (Nat × Nat)
+  | [a, b] =>
+    match parseNat? a, parseNat? b with
+    | some a, some b => some (a, b)
+    | _, _ => none
+  | _ => none
+
+def showOpt (o : Opt) : String := showRats o.groups
+def showAgent (a : Agent) : String :=
+  showRats a.attrs ++ " @ " ++ " ; ".intercalate (a.opts.map showOpt)
+def showPop (P : Pop) : String := " | ".intercalate (P.agents.map showAgent)
+
+/-- which agents refer to the same configuration object: first-occurrence numbering -/
+def sharing (P : Pop) : List Nat :=
+  let addrs := P.agents.map Agent.cfg
+  addrs.map (fun a => (addrs.eraseDups.idxOf a))
+
+def valid (P : Pop) (i : Nat) : Bool :=
+  match P.agents[i]? with
+  | some a => a.cfg < P.heap.length
+  | none => false
 
 def step (s : IOState) : List String → IOState × String
+  | "mutate" :: lo :: hi :: sh :: g :: d :: [v, coin] =>
+    match parseParam? [lo, hi, sh, g, d], parseRat? v, parseRat? coin with
+    | some p, some v, some c => (s, showRat (mutate1 p v c))
+    | _, _, _ => (s, "bad-op")
+  | "sample" :: n :: ws =>
+    match parseNat? n, parseNats? ws with
+    | some n, some perm =>
+      match sample n perm with
+      | some k => (s, toString k)
+      | none => (s, "bad-op")
+    | _, _ => (s, "bad-op")
+  | "cfg" :: n :: ws =>
+    match parseNat? n, allSome ((chunks 5 ws).map parseParam?) with
+    | some n, some ps =>
+      if ps.length = n ∧ ws.length = 5 * n then ({ s with params := ps }, "ok") else (s, "bad-op")
+    | _, _ => (s, "bad-op")
+  | "opts" :: m :: ws =>
+    match parseNat? m, allSome ((chunks 2 ws).map parsePair?) with
+    | some m, some os =>
+      if os.length = m ∧ ws.length = 2 * m then ({ s with opts := os }, "ok") else (s, "bad-op")
+    | _, _ => (s, "bad-op")
+  | "pop" :: sem :: om :: size :: ws =>
+    let sem? : Option Sem := match sem with
+      | "own" => some .own
+      | "cached" => some .cached
+      | _ => none
+    let om? : Option Bool := match om with
+      | "all" => some true
+      | "first" => some false
+      | _ => none
+    match sem?, om?, parseNat? size, parseRats? ws with
+    | some sem, some om, some size, some attrs =>
+      -- `_registry_init`: every configured hyperparameter must be an attribute of the agent
+      if attrs.length < s.params.length then (s, "reject")
+      else if s.opts.any (fun o => o.1 ≥ attrs.length) then (s, "bad-op")
+      else
+        let opts := s.opts.map (fun o => ({ lr := o.1, groups := List.replicate o.2 (attrs.getD o.1 0) } : Opt))
+        ({ s with sem := sem, allOpts := om, pop := Pop.initial s.params size attrs opts }, "ok")
+    | _, _, _, _ => (s, "bad-op")
+  | "mut" :: i :: coin :: ws =>
+    match parseNat? i, parseRat? coin, parseNats? ws with
+    | some i, some coin, some perm =>
+      if ¬ valid s.pop i then (s, "bad-op")
+      else if s.params.length = 0 then (s, "None")          -- `if not hp_config: mut = "None"`
+      else
+        match sample s.params.length perm with
+        | none => (s, "bad-op")
+        | some k =>
+          let P := s.pop.mutate s.sem s.allOpts i k coin
+          match P.agents[i]?, s.params[k]? with
+          | some a, some p =>
+            ({ s with pop := P }, s!"{k} {showDType p.dtype} {showRat (a.attrs.getD k 0)}")
+          | _, _ => (s, "bad-op")
+    | _, _, _ => (s, "bad-op")
+  | ["clone", i] =>
+    match parseNat? i with
+    | some i => if valid s.pop i then ({ s with pop := s.pop.clone i }, "ok") else (s, "bad-op")
+    | none => (s, "bad-op")
+  | "select" :: ws =>
+    match parseNats? ws with
+    | some idxs =>
+      if idxs.length = 0 ∨ idxs.any (fun i => ¬ valid s.pop i) then (s, "bad-op")
+      else ({ s with pop := s.pop.select idxs }, "ok")
+    | none => (s, "bad-op")
+  | ["dump"] => (s, showPop s.pop)
+  | ["sharing"] => (s, showNats (sharing s.pop))
+  | ["size"] => (s, toString s.pop.agents.length)
   | _ => (s, "bad-op")
 
 end HpMut
